@@ -279,3 +279,28 @@ def _k_only_in_outer_slice(t):
         if x.op == "dim" and __import__("sa.tq", fromlist=["x"])._dim_mentions(x.args[0], "K"):
             return False
     return True
+
+
+def solver_policy(ctx, rule):
+    """svd_solver='auto' resolves as documented (exact for small problems and 'mle', randomized only for
+    1 <= k < 0.8 min(extent) on larger data): concrete sizes on both sides of every boundary"""
+    P = ctx.P
+    cls = P.cls(PCOVR)
+    site = ctx.site(P.method(cls, "fit"))
+    # solver policy of svd_solver="auto" (documented): the exact full decomposition for small problems
+    # (max extent <= 500) and for 'mle'; the randomized one only for 1 <= k < 0.8 min(extent) on larger data
+    def noop(interp, clo, args, kw, st_, node):
+        h = st_.heap[clo.self_v.obj.id]
+        h["pxt_"] = farr(__import__("sa.terms", fromlist=["T"]).T("sym", "pxt"), "M", "K")
+        h["pty_"] = farr(__import__("sa.terms", fromlist=["T"]).T("sym", "pty"), "K", "P")
+        return vconst(None)
+
+    for (n_, m_, k_, want) in ((100, 20, 5, "full"), (500, 500, 5, "full"), (1000, 50, 5, "randomized"), (1000, 50, 39, "randomized"), (1000, 50, 40, "full"), (1000, 50, 45, "full"), (600, 700, "mle", "full"), (501, 30, 1, "randomized")):
+        I = ctx.interp(assume=protocols.assume_default, stubs={"PCovR._fit_feature_space": noop, "PCovR._fit_sample_space": noop})
+        st = State()
+        o = ctx.construct(I, st, cls, n_components=k_, mixing=scalar("alpha", 0, 1), svd_solver="auto")
+        ctx.call_method(I, st, o, "fit", arr("X", n_, m_), arr("Y", n_, "P"))
+        fs = ctx.attr(st, o, "fit_svd_solver_")
+        cfg = f"auto solver, X {n_}x{m_}, n_components={k_!r}"
+        ctx.ob(rule, f"svd_solver='auto' resolves to {want} [{cfg}]", fs is not None and fs.has_const and fs.const == want, f"fit_svd_solver_ = {fs!r}", site, cfg)
+
